@@ -41,7 +41,7 @@ func (m *c01Mon) After(w *world.World, op world.Op, res world.Res, pre interface
 	p := pre.(c01Pre)
 	opn := op.Kind
 	name := map[world.OpKind]string{world.OpIns: "Insert", world.OpDel: "Delete", world.OpPersist: "MakeRoot", world.OpReload: "MakeRoot+LoadMast",
-		world.OpReloadJSON: "MakeRoot+LoadMast", world.OpClone: "Clone", world.OpGet: "Get", world.OpIter: "Iter", world.OpKeep: "MakeRoot", world.OpLoad: "LoadMast", world.OpLoadNoCache: "LoadMast", world.OpCursor: "Cursor", world.OpPersistFail: "failing-MakeRoot"}[opn]
+		world.OpReloadJSON: "MakeRoot+LoadMast", world.OpClone: "Clone", world.OpGet: "Get", world.OpIter: "Iter", world.OpKeep: "MakeRoot", world.OpLoad: "LoadMast", world.OpLoadNoCache: "LoadMast", world.OpCursor: "Cursor", world.OpPersistFail: "failing-MakeRoot", world.OpFlushCache: "cache-emptied", world.OpDrop: "drop"}[opn]
 	var out []explore.Finding
 	rc := resClass(res)
 	if res.Panic != nil {
@@ -189,10 +189,13 @@ func C01Configs(thorough bool) []*world.Config {
 	// several tree values of one version: clones and loads of a kept root through the shared cache
 	add(world.WithTwoSlots(world.UintCfg(2, u(1, 4), 1, B, "none"), 5))
 	add(world.WithTwoSlots(world.UintCfg(2, []interface{}{uint(1), uint(2), uint(4)}, 2, M, "big"), 5))
+	add(TaggedCached(6, 2))
 	if thorough {
 		add(SharedCacheSeeded(B, 5))
+		add(SharedCacheSeededSplit(M, 5))
 	} else {
 		add(SharedCacheSeeded(B, 4))
+		add(SharedCacheSeededSplit(M, 4))
 	}
 	im := world.IntCfg(16, []int{1, 2, 3, 16, 32}, []interface{}{"a", "b"}, "", B, "none")
 	im.InMemory = true
